@@ -398,6 +398,33 @@ fn c03_file_ranges_two_files_running_offset() {
     kani::cover!(true, "reached");
 }
 
+// @prop C17
+// @tier off
+// @fn Metainfo::file_list
+// @bound (no result within 420 s: the three chained filter_map closures over HashMap lookups plus Vec<File> collection) a decoded "files" list of two well-formed dictionaries whose paths are "b" then "a" (listed order differs from lexicographic order), any non-negative i64 lengths
+// @outside longer lists, malformed entries between them (c17_file_list_order_and_skipping, off: did not finish), symbolic paths (UTF-8 validation of symbolic bytes inside the filter_map chain did not finish), the decoder that produces the list (3.7)
+// @desc the file list keeps the order in which the document lists the files (not, e.g., path order), with each entry's length and path as listed: byte offsets of files in the content depend on this order
+#[kani::proof]
+#[kani::unwind(6)]
+fn c17_file_list_keeps_listed_order_2() {
+    let l0: i64 = (kani::any::<u64>() >> 1) as i64;
+    let l1: i64 = (kani::any::<u64>() >> 1) as i64;
+    let mut f0: HashMap<Vec<u8>, BValue> = HashMap::new();
+    f0.insert(key(b"length"), BValue::Int(l0));
+    f0.insert(key(b"path"), BValue::ByteStr(vec![b'b']));
+    let mut f1: HashMap<Vec<u8>, BValue> = HashMap::new();
+    f1.insert(key(b"length"), BValue::Int(l1));
+    f1.insert(key(b"path"), BValue::ByteStr(vec![b'a']));
+    let list = vec![BValue::Dict(f0), BValue::Dict(f1)];
+    let files = Metainfo::file_list(&list);
+    assert!(files.len() == 2, "both well-formed entries are kept");
+    assert!(files[0].length == l0 as u64 && files[0].path.as_bytes()[0] == b'b', "first listed entry first, length and path as listed");
+    assert!(files[1].length == l1 as u64 && files[1].path.as_bytes()[0] == b'a', "second listed entry second");
+    kani::cover!(l0 == 0 && l1 == i64::MAX, "zero-length and huge files kept");
+    std::mem::forget(files);
+    std::mem::forget(list);
+}
+
 fn file_ranges_three_files(pl: u64) {
     // lengths structurally below 2^16
     let l0: u64 = (kani::any::<u32>() & 0xFFFF) as u64;
